@@ -1021,3 +1021,155 @@ def r3_1(ctx: Ctx, rule="R3.1"):
             if call_name(c) in ("move", "move_to", "rotate") and isinstance(c.func, ast.Attribute):
                 ctx.ob(rule, f, c, False, "the mapped molecule is not translated/rotated as a whole after restoration "
                        "-- `%s` makes every atom depend on all coordinates" % norm(c), node=c)
+
+
+# ----------------------------------------------------------------------------------------------------------------
+# R3.4  one selection of the nearest anchor
+
+_ARGSEL = {"argmin", "argmax", "nanargmin", "nanargmax"}
+_MINSEL = {"min", "max", "amin", "amax", "nanmin", "nanmax"}
+
+
+def tie_split_sites(fn: ast.AST, table_a: str, table_b: str):
+    """Pairs (store into table_a, store into table_b) in one function where one store is fed by an `argmin`-style
+    selection and the other by an `== <the minimum>` mask: the first picks one winner of an exact tie, the second all
+    of them, so the two tables disagree about which candidate an entry belongs to.  Names carry the two marks through
+    assignments, loop targets and comprehension targets; a store inherits the marks of its key, its value and of the
+    iterables of the loops around it."""
+    def has_call(e, names):
+        return any(isinstance(c, ast.Call) and ((isinstance(c.func, ast.Attribute) and c.func.attr in names)
+                                                 or (isinstance(c.func, ast.Name) and c.func.id in names and names is _MINSEL))
+                   for c in ast.walk(e))
+    minnames: Set[str] = set()
+    for s in walk_no_nested(fn):
+        if isinstance(s, ast.Assign) and len(s.targets) == 1 and isinstance(s.targets[0], ast.Name) and has_call(s.value, _MINSEL) \
+                and not has_call(s.value, _ARGSEL):
+            minnames.add(s.targets[0].id)
+
+    def eq_min(e):
+        for c in ast.walk(e):
+            if isinstance(c, ast.Compare) and any(isinstance(o, ast.Eq) for o in c.ops):
+                for side in [c.left] + list(c.comparators):
+                    if has_call(side, _MINSEL) or any(isinstance(n, ast.Name) and n.id in minnames for n in ast.walk(side)):
+                        return True
+            if isinstance(c, ast.Call) and call_name(c) in ("isclose",) and False:
+                return True
+        return False
+    marks: Dict[str, Set[str]] = {}
+
+    def expr_marks(e) -> Set[str]:
+        m: Set[str] = set()
+        if has_call(e, _ARGSEL):
+            m.add("arg")
+        if eq_min(e):
+            m.add("eq")
+        for n in ast.walk(e):
+            if isinstance(n, ast.Name):
+                m |= marks.get(n.id, set())
+        return m
+
+    def bind(target, m):
+        # a (re)binding replaces the marks of the name: the walk below follows the program order
+        for n in ast.walk(target):
+            if isinstance(n, ast.Name) and isinstance(n.ctx, ast.Store):
+                marks[n.id] = set(m)
+    found = {table_a: [], table_b: []}
+
+    def store_exprs(s, table):
+        if isinstance(s, ast.Assign) and isinstance(s.targets[0], ast.Subscript) and attr_chain(s.targets[0].value) == table:
+            return [s.targets[0].slice, s.value]
+        if isinstance(s, ast.Expr) and isinstance(s.value, ast.Call) and isinstance(s.value.func, ast.Attribute) \
+                and s.value.func.attr in ("update", "setdefault", "__setitem__") and attr_chain(s.value.func.value) == table:
+            return list(s.value.args) + [k.value for k in s.value.keywords]
+        return None
+
+    def run(body, ctl: Set[str]):
+        for s in body:
+            if isinstance(s, (ast.FunctionDef, ast.AsyncFunctionDef, ast.ClassDef)):
+                continue
+            for table in (table_a, table_b):
+                ex = store_exprs(s, table)
+                if ex is not None:
+                    m = set(ctl)
+                    for e in ex:
+                        m |= expr_marks(e)
+                        for c in ast.walk(e):      # comprehension variables inside the stored expression
+                            if isinstance(c, ast.comprehension):
+                                m |= expr_marks(c.iter)
+                    prev = [x for x in found[table] if x[0] is s]
+                    if prev:
+                        prev[0][1].update(m)
+                    else:
+                        found[table].append((s, m))
+            if isinstance(s, ast.Assign):
+                m = expr_marks(s.value)
+                for t in s.targets:
+                    if isinstance(t, (ast.Name, ast.Tuple, ast.List)):
+                        bind(t, m)
+            elif isinstance(s, ast.AugAssign) and isinstance(s.target, ast.Name):
+                marks.setdefault(s.target.id, set()).update(expr_marks(s.value))
+            elif isinstance(s, ast.For):
+                m = expr_marks(s.iter)
+                for _ in range(2):
+                    bind(s.target, m)
+                    run(s.body, ctl | m)
+                run(s.orelse, ctl)
+            elif isinstance(s, ast.While):
+                m = expr_marks(s.test)
+                for _ in range(2):
+                    run(s.body, ctl | m)
+            elif isinstance(s, ast.If):
+                m = expr_marks(s.test)
+                before = {k: set(v) for k, v in marks.items()}
+                run(s.body, ctl | m)
+                after_body = {k: set(v) for k, v in marks.items()}
+                marks.clear()
+                marks.update(before)
+                run(s.orelse, ctl | m)
+                for k, v in after_body.items():
+                    marks.setdefault(k, set()).update(v)
+            elif isinstance(s, (ast.With, ast.Try)):
+                run(s.body, ctl)
+                for h in getattr(s, "handlers", []):
+                    run(h.body, ctl)
+                run(getattr(s, "orelse", []), ctl)
+                run(getattr(s, "finalbody", []), ctl)
+    run(fn.body, set())
+    sa, sb = found[table_a], found[table_b]
+    hits = []
+    for s1, m1 in sa:
+        for s2, m2 in sb:
+            if (m1 == {"arg"} and m2 == {"eq"}) or (m1 == {"eq"} and m2 == {"arg"}):
+                hits.append((s1, s2))
+    return hits, len(sa), len(sb)
+
+
+def r3_4(ctx: Ctx, rule="R3.4"):
+    """The anchor recorded for a target atom and the frame its stored coordinates were taken in are the same anchor:
+    in the function that fills both tables the two may not come from two different selections of the nearest anchor
+    (`argmin` vs `== minimum`), which disagree whenever two anchors are exactly equidistant."""
+    cls = ctx.repo.cls("ExchangeMap")
+    eq, co = "self._equivalences", "self._target_coordinates"
+    n = 0
+    for f in cls.methods.values():
+        hits, na, nb = tie_split_sites(f.node, eq, co)
+        if not (na and nb):
+            continue
+        ctx.seen(f)
+        n += 1
+        if hits:
+            s1, s2 = hits[0]
+            ctx.ob(rule, f, s1, False,
+                   "the anchor recorded for a target atom is the anchor whose frame its stored coordinates are taken in -- here `%s` follows "
+                   "an argmin-style selection and `%s` an `== minimum` mask, or the reverse: on an exact tie between two anchors the atom is "
+                   "projected in one frame and restored in the other" % (norm(s1)[:70], norm(s2)[:70]), node=s1)
+        else:
+            ctx.ob(rule, f, "stores into %s and %s" % (eq, co), True,
+                   "the recorded anchor and the projection frame are not drawn from two different selections of the minimum "
+                   "(argmin vs == minimum)", node=f.node)
+    if n == 0:
+        ctx.ob(rule, cls.methods.get("__init__") or next(iter(cls.methods.values())), "map builder", True,
+               "no single function fills both the anchor table and the coordinate table; not decided on this tree", undecided=True)
+    from ..fixtures import check_fixture
+    check_fixture(ctx, rule, "tiesplit.py",
+                  lambda repo: sum(len(tie_split_sites(f_.node, "self._a", "self._b")[0]) for f_ in repo.funcs.values()), expect_exact=2)
